@@ -3,6 +3,7 @@ package main
 
 import (
 	"context"
+	"errors"
 	"fmt"
 	"io"
 	"sort"
@@ -381,6 +382,48 @@ func (sp *spec) build() (func(), func(x *vsched.Exec) (string, error)) {
 				runErr = fmt.Errorf("expected an interrupt, got %v", e)
 			}
 			result = "<interrupted>"
+		case "start-end", "before-first", "start-branch-fails":
+			// runs that leave the run loop inside their FIRST step: START wired to END, an interrupt before the only
+			// node, a failing branch on START. The graph is a unit like any other: one start, one end-type event
+			g := compose.NewGraph[gprog.Val, gprog.Val]()
+			var copts []compose.GraphCompileOption
+			gu := unit{name: "G0", start: in}
+			switch sp.shape {
+			case "start-end":
+				g.AddEdge(compose.START, compose.END)
+				gu.end = in
+			case "before-first":
+				g.AddLambdaNode("a", lam("a", sp.yields), compose.WithNodeName("a"))
+				g.AddEdge(compose.START, "a")
+				g.AddEdge("a", compose.END)
+				copts = append(copts, compose.WithInterruptBeforeNodes([]string{"a"}))
+				gu.fails = true
+			case "start-branch-fails":
+				g.AddLambdaNode("a", lam("a", sp.yields), compose.WithNodeName("a"))
+				g.AddBranch(compose.START, compose.NewGraphBranch(func(ctx context.Context, in gprog.Val) (string, error) {
+					return "", errors.New("branch-condition-failed")
+				}, map[string]bool{"a": true, compose.END: true}))
+				g.AddEdge("a", compose.END)
+				gu.fails = true
+			}
+			units = append(units, gu)
+			if sp.desig == "leaves" {
+				designate("Da", "a", func(u unit) bool { return u.name == "a" })
+			}
+			r, err := g.Compile(ctx, append(copts, compose.WithGraphName("G0"))...)
+			if err != nil {
+				runErr = err
+				return
+			}
+			res, e := exec(ctx, r, sp.call, opts)
+			switch {
+			case !gu.fails:
+				result, runErr = res, e
+			case e == nil:
+				runErr = fmt.Errorf("expected the run to end with an error or interrupt, got the result %s", res)
+			default:
+				result = "<" + sp.shape + ">"
+			}
 		case "nested":
 			sub := compose.NewGraph[gprog.Val, gprog.Val]()
 			sres := gprog.Val{}
@@ -699,7 +742,7 @@ func main() {
 	if !quick {
 		bounds = []int{0, 1, 2, 3}
 	}
-	shapes := []string{"fan2", "nested", "tools", "interrupt", "tools-unknown", "sharedlambda", "fan3"}
+	shapes := []string{"fan2", "nested", "tools", "interrupt", "tools-unknown", "sharedlambda", "start-end", "before-first", "start-branch-fails", "fan3"}
 	for _, shape := range shapes {
 		desigs := []string{"", "leaves"}
 		if shape == "nested" {
@@ -729,7 +772,11 @@ func main() {
 									if mod != "drain" && !(undes >= 2) && !(desig != "" && undes == 1) {
 										continue
 									}
-									if quick && (shape == "tools-unknown" || shape == "sharedlambda") && !(undes <= 1 && !raw && mod == "drain") {
+									firstStep := shape == "start-end" || shape == "before-first" || shape == "start-branch-fails"
+									if firstStep && desig != "" && shape == "start-end" {
+										continue // no node to designate
+									}
+									if quick && (shape == "tools-unknown" || shape == "sharedlambda" || firstStep) && !(undes <= 1 && !raw && mod == "drain") {
 										continue
 									}
 									if quick && shape == "fan3" && !(undes == 3 && separate && desig == "leaves") {
